@@ -336,7 +336,8 @@ impl Exec for Ex {
                 // each generator writes its own file (a project without a separate generator for the
                 // included file writes both)
                 let mine = if step.subgen { name == "inc.ninja" } else { name != "inc.ninja" || !sh.world.disk.has_subgen() };
-                if mine {
+                // a write-if-changed generator leaves an identical file (and its timestamp) alone
+                if mine && !(step.restat && util::read_file(&name).as_deref() == Some(text.as_bytes())) {
                     sh.world.clock.write(&name, text.as_bytes());
                 }
             }
@@ -346,14 +347,16 @@ impl Exec for Ex {
             if !sh.phase2_seen {
                 sh.regen_since_load = true;
             }
+            // a generator may report what it read through a depfile, like any other command
+            let reported: Option<Vec<String>> = if step.deps != 0 { Some(sh.world.true_includes(step.uid).into_iter().filter(|f| std::path::Path::new(f).is_file()).collect()) } else { None };
             // the record is judged against the manifest n2 currently has loaded
             let before = sh.world.log.len();
-            sh.world.record_success(&proj, &step, None);
+            sh.world.record_success(&proj, &step, reported.as_deref());
             if sh.world.log.len() > before {
                 sh.appended.push(before);
             }
             sh.finishes.push(FinishEv { uid: step.uid, time: now, outcome: Outcome::Success, phase: sh.phase, epoch: sh.loads });
-            return Finish { id: run.id, outcome: Outcome::Success, output: vec![], last_lines: vec![], discovered: None };
+            return Finish { id: run.id, outcome: Outcome::Success, output: vec![], last_lines: vec![], discovered: reported };
         }
         write_outputs(sh, &proj, &step, &run.read, usize::MAX);
         // reported dependencies: the true include set, in varying spellings, with duplicates and declared inputs mixed in
